@@ -122,6 +122,37 @@ func newWorld(t *testing.T, rng *rand.Rand, st map[string]int64, ownBoot bool, o
 	return w
 }
 
+// p2pUp / p2pDown: the p2p layer gained / lost a connection to the peer. The model of live
+// connections is kept at that level: a full node is "connected" from the moment p2p has the
+// connection (successful Connect, accepted inbound stream) until p2p closes it - because the
+// remote side went away or because the topology asked for it (p2p.Disconnect).
+func (w *world) p2pUp(p *tpeer) {
+	w.mu.Lock()
+	w.live[p.idx] = true
+	w.mu.Unlock()
+}
+
+func (w *world) p2pDown(p *tpeer) {
+	w.mu.Lock()
+	delete(w.live, p.idx)
+	w.mu.Unlock()
+}
+
+func (w *world) isLive(p *tpeer) bool {
+	w.mu.Lock()
+	defer w.mu.Unlock()
+	return w.live[p.idx]
+}
+
+// dialOK is the answer of p2p.Connect for a node that accepts the connection.
+func (w *world) dialOK(q *tpeer) (*p2p.Peer, error) {
+	pr := kadrig.Peer(q.addr, mode(q))
+	if !q.boot {
+		w.p2pUp(q) // (a boot node is connected too, but the topology must never count it)
+	}
+	return &pr, nil
+}
+
 func (w *world) gossipFailsFor(p *tpeer) bool {
 	w.mu.Lock()
 	defer w.mu.Unlock()
@@ -301,29 +332,31 @@ func (w *world) inbound(c *obs.Case, p *tpeer, force, usePick bool) {
 		via = "pick"
 	}
 	if admitted {
+		w.p2pUp(p) // libp2p registers the connection before it tells the topology
 		err := k.Connected(context.Background(), kadrig.Peer(p.addr, mode(p)), force)
 		switch {
 		case err == nil:
 		case errors.Is(err, topology.ErrOversaturated):
 			admitted = false
-			// libp2p: _ = s.Disconnect(overlay, ...) -> the topology is notified
-			k.Disconnected(kadrig.Peer(p.addr, mode(p)), "unable to signal connection notifier")
 		case w.gossipFailsFor(p):
-			// telling the new peer about our peers failed: Connected reports it, libp2p closes the connection
+			// telling the new peer about our peers failed: Connected reports it (after asking p2p to drop the peer)
 			admitted = false
 			via = "gossip-failure"
-			k.Disconnected(kadrig.Peer(p.addr, mode(p)), "unable to signal connection notifier")
 		default:
 			w.t.Fatalf("harness: Connected: %v", err)
+		}
+		if err != nil && w.isLive(p) {
+			// libp2p: _ = s.Disconnect(overlay, ...): closes the connection and, as it still had it, notifies the topology
+			w.p2pDown(p)
+			k.Disconnected(kadrig.Peer(p.addr, mode(p)), "unable to signal connection notifier")
 		}
 	}
 	w.note("inbound(p%d@bin%d force=%v pick=%v protected=%v) -> admitted=%v", p.idx, p.bin, force, usePick, protected, admitted)
 	w.st["inbound_events"]++
 	if admitted {
-		w.mu.Lock()
-		w.live[p.idx] = true
-		w.mu.Unlock()
-		p.last = "inbound"
+		if w.isLive(p) {
+			p.last = "inbound"
+		}
 		w.st["inbound_admitted"]++
 	} else {
 		p.last = "inbound-rejected"
@@ -451,10 +484,7 @@ func TestHistories(t *testing.T) {
 					continue
 				}
 				if rng.Intn(10) < 7 {
-					w.dial = func(q *tpeer) (*p2p.Peer, error) {
-						pr := kadrig.Peer(q.addr, mode(q))
-						return &pr, nil
-					}
+					w.dial = w.dialOK
 					a, err := k.GetAuroraAddress(boson.NewAddress(p.addr))
 					if err != nil {
 						t.Fatalf("harness: addressbook: %v", err)
@@ -465,7 +495,9 @@ func TestHistories(t *testing.T) {
 					w.dial = nil
 					w.note("outbound-dial(p%d@bin%d boot=%v)", p.idx, p.bin, p.boot)
 				} else {
-					k.Outbound(kadrig.Peer(p.addr, mode(p)))
+					// the debug API: p2p.Connect, then Outbound
+					pr, _ := w.dialOK(p)
+					k.Outbound(*pr)
 					w.note("outbound-direct(p%d@bin%d boot=%v)", p.idx, p.bin, p.boot)
 				}
 				if p.boot {
@@ -473,8 +505,9 @@ func TestHistories(t *testing.T) {
 					st["outbound_to_boot_node"]++
 					evs["outbound-boot"] = true
 				} else {
-					w.live[p.idx] = true
-					p.last = "outbound"
+					if w.isLive(p) {
+						p.last = "outbound"
+					}
 					st["outbound_to_full_node"]++
 					evs["outbound"] = true
 					w.markReachable(rng, p)
@@ -494,10 +527,7 @@ func TestHistories(t *testing.T) {
 						evs["inbound-gossip-failure"] = true
 					}
 				} else {
-					w.dial = func(q *tpeer) (*p2p.Peer, error) {
-						pr := kadrig.Peer(q.addr, mode(q))
-						return &pr, nil
-					}
+					w.dial = w.dialOK
 					a, err := k.GetAuroraAddress(boson.NewAddress(p.addr))
 					if err != nil {
 						t.Fatalf("harness: addressbook: %v", err)
@@ -505,9 +535,10 @@ func TestHistories(t *testing.T) {
 					err = k.Connection(context.Background(), a)
 					w.dial = nil
 					if err == nil {
-						// the topology found no reachable peer to gossip about after all: a normal outbound connection
-						w.live[p.idx] = true
-						p.last = "outbound"
+						// (the topology found no reachable peer to gossip about after all: a normal outbound connection)
+						if w.isLive(p) {
+							p.last = "outbound"
+						}
 					} else {
 						p.last = "dial-fail-gossip"
 						st["outbound_dropped_after_gossip_failure"]++
@@ -542,8 +573,7 @@ func TestHistories(t *testing.T) {
 					if other == nil {
 						return nil, errors.New("connection refused")
 					}
-					pr := kadrig.Peer(other.addr, mode(other))
-					return &pr, nil
+					return w.dialOK(other)
 				}
 				a, err := k.GetAuroraAddress(boson.NewAddress(p.addr))
 				if err != nil {
